@@ -200,6 +200,17 @@ func ruleP19CmdEffects(p *Prog, r *Report) {
 		}
 		// unconditional
 		r.check(len(guardsOf(op.Block())) == 0, rule, s.cmd+":effect", p.instrPos(op), s.op+"() is applied unconditionally to the collection given", s.op+"() is applied only conditionally")
+		// once the database has been written the command has happened: no failure is reported
+		// afterwards (every check that can refuse the command comes before the write)
+		if e := resultOf(call, 0); e != nil {
+			late := ""
+			for _, ret := range plainReturnsOf(run) {
+				if call.Block().Dominates(ret.Block()) && knownNil(ret.Block(), e) && !isNilConst(retResult(ret, 0)) && p.nilnessAt(ret.Block(), retResult(ret, 0), 0) != nnNil {
+					late = p.instrPos(ret)
+				}
+			}
+			r.check(late == "", rule, s.cmd+":no-failure-after-write", p.instrPos(call), "after the database was written the command reports success", s.cmd+" can report a failure ("+late+") after ManipulateBookmarks has already written the database: a refused command leaves its change behind")
+		}
 		switch s.op {
 		case "Set":
 			// the bookmark: NewBookmark(opt.Name, file) / NewDefaultBookmark(file) when the name is empty
